@@ -95,19 +95,14 @@ End SoE.
 (* ---------------------------------------------------------------- StaticCondensation *)
 Section Schur.
 Variables Dm Df : M.
-Hypothesis mm : Dm * Dm = Dm.
-Hypothesis ff : Df * Df = Df.
-Hypothesis mf : Dm * Df = 0.
-Hypothesis fm : Df * Dm = 0.
 Variable solve_ff : M -> M.
 Variable A : M.
 (* the inner LinSolve answers the block system A_ff X = A_fm with X living on the free rows *)
 Hypothesis HS1 : Df * sc_X Dm Df solve_ff A = sc_X Dm Df solve_ff A.
 Hypothesis HS2 : Df * A * Df * sc_X Dm Df solve_ff A = Df * A * Dm.
-(* A_ff is non-singular: Y is its inverse in the f-corner *)
+(* A_ff is non-singular: Y is a left inverse in the f-corner *)
 Variable Y : M.
 Hypothesis Yl : Y * (Df * A * Df) = Df.
-Hypothesis YD : Y * Df = Y.
 
 Local Notation X := (sc_X Dm Df solve_ff A).
 Local Notation Ared := (sc_Ared Dm Df solve_ff A).
@@ -142,3 +137,51 @@ Qed.
 End Schur.
 
 End LinModsP.
+
+(* ---------------------------------------------------------------- non-vacuity: 2 x 2 rational matrices,
+   A = [[2, 1], [3, 4]] (NOT symmetric, coupled), f = {0}, p = {1}, D_f = E00, D_p = E11, inner solve = division by 2 *)
+Section Inst.
+Local Notation R := rat.
+Local Notation Mx := 'M[R]_2.
+Definition E (i j : 'I_2) : Mx := delta_mx i j.
+Definition i0 : 'I_2 := ord0.
+Definition i1 : 'I_2 := lift ord0 ord0.
+Lemma EE i j k l : E i j * E k l = E i l *+ (j == k).
+Proof. by rewrite /E -mulmxE mul_delta_mx_cond. Qed.
+Lemma sumE : E i0 i0 + E i1 i1 = 1.
+Proof.
+  apply/matrixP => i j; rewrite !mxE.
+  by case: i => [[|[|i]] Hi] //; case: j => [[|[|j]] Hj].
+Qed.
+Lemma trE i j : (E i j)^T = E j i.
+Proof. by rewrite /E trmx_delta. Qed.
+Definition itr : Mx -> Mx := @mx_tr _ 1.
+Definition icj : Mx -> Mx := @mx_cj _ [rmorphism of idfun] 1.
+Lemma icjE a : icj a = a.
+Proof. by apply/matrixP => i j; rewrite !mxE. Qed.
+Lemma inst_sel : selectors itr icj (E i0 i0) (E i1 i1).
+Proof.
+  by split; rewrite /itr /mx_tr ?icjE ?trE ?EE //=; exact: sumE.
+Qed.
+(* A = [[2, 1], [3, 4]] (not symmetric), f = {0}, p = {1}, bf = 1, xp = 1 *)
+Definition iA : Mx := 2%:Q *: E i0 i0 + E i0 i1 + 3%:Q *: E i1 i0 + 4%:Q *: E i1 i1.
+Definition isolve (r : Mx) : Mx := 2%:Q^-1 *: r.
+Lemma inst_ff : ff_solver_ok (E i0 i0) isolve iA.
+Proof.
+  move=> r Hr; rewrite /isolve; split; first by rewrite -scalerAr Hr.
+  rewrite /soe_Aff /iA !mulrDr !mulrDl -!scalerAr -!scalerAl !EE /= ?mulr0n ?mulr1n ?scaler0 ?addr0 ?add0r.
+  by rewrite !mul0r !scaler0 !addr0 Hr scalerA mulVf // scale1r.
+Qed.
+Lemma inst_star : star_laws itr icj.
+Proof. by apply: matrix_star_laws. Qed.
+Lemma inst_HB : E i0 i0 * E i0 i0 = E i0 i0.
+Proof. by rewrite EE. Qed.
+Lemma inst_HX : E i1 i1 * E i1 i0 = E i1 i0.
+Proof. by rewrite EE. Qed.
+Lemma inst_nonsym : itr iA <> iA.
+Proof.
+  move/matrixP => /(_ i0 i1); rewrite /itr /mx_tr /iA !mxE /= !mulr0 !mulr1 !addr0 !add0r.
+  by [].
+Qed.
+End Inst.
+
